@@ -31,6 +31,11 @@ def check(run):
     for L in range(1, pl['root_L'] + 1):
         go(f'parse T1 from root, L={L}, all 256 byte values', {'device': 'T1', 'L': L, 'completions': L <= pl['compl_L']}, pl['per'])
         complete_bounds['T1/root'] = L
+    # deeper into the grammar with a concrete prefix: later arguments, later units
+    for pre in ('C 1,', 'C 1 , ', 'C "a",', 'A:B;', 'C #11a,', 'U? '):
+        for L in range(1, (5 if run.tier == 'thorough' else 4) + 1):
+            go(f'parse T1 from root, prefix {pre!r} + {L} symbolic bytes', {'device': 'T1', 'L': L, 'prefix': pre}, pl['per'])
+            complete_bounds['T1/root/prefix ' + pre] = L
     for start in (['A'], ['A', 'X']):
         for L in range(1, pl['other_L'] + 1):
             go(f'parse T1 from {"/".join(start)}, L={L}', {'device': 'T1', 'start': start, 'L': L}, pl['per'])
